@@ -195,8 +195,11 @@ Section Element.
   Variable block : bytes.
 
   (* decodeABIFixedArrayBytes; [dec] is decodeABIElement on component.arrayChild *)
-  Definition decodeABIFixedArrayBytes (dec : Z -> Z -> res (Z * cval)) (c : tcomp) (len : Z)
+  Definition decodeABIFixedArrayBytes (dec : Z -> Z -> res (Z * cval)) (c child : tcomp) (len : Z)
              (headStart headPosition : Z) : res (Z * cval) :=
+    (* the declared length is refused when the remaining data cannot hold that many elements *)
+    if (len >? 0) && occupiesHeadBytes child && ((len - 1) * 32 >=? zlen block - headPosition)
+    then Err ENotEnoughValue else
     if len <? 0 then Panic else      (* make([]*ComponentValue, component.arrayLength) *)
     do (rd, children) <- loop_elems (dec headStart) len headPosition;
     Ok (rd, CV (Some c) children GNil).
@@ -229,10 +232,12 @@ Section Element.
           do headOffset <- decodeABILength block headPosition;
           let headStart := headStart + headOffset in
           let headPosition := headStart in
+          (* every entry has a 32 byte offset in the head *)
+          if (len >? 0) && ((len - 1) * 32 >=? zlen block - headStart) then Err ENotEnoughValue else
           if len <? 0 then Panic else      (* children := make([]*typeComponent, arrayLength) *)
           do (_, x) <- walkDynamicChildArrayABIBytes_rep (decodeABIElement child) c len headStart headPosition;
           Ok (32, x)
-        else decodeABIFixedArrayBytes (decodeABIElement child) c len headStart headPosition
+        else decodeABIFixedArrayBytes (decodeABIElement child) c child len headStart headPosition
     | TCDynArr child _ =>
         do headOffset <- decodeABILength block headPosition;
         do x <- decodeABIDynamicArrayBytes (decodeABIElement child) c child (headStart + headOffset);
